@@ -29,6 +29,7 @@ type h3Seen struct {
 	FollowOK bool   `json:"follow_ok"`
 	FollowEr string `json:"follow_err,omitempty"`
 	SameConn bool   `json:"same_conn"`
+	Reread   []rr   `json:"reread,omitempty"`
 	Panic    string `json:"panic,omitempty"`
 	Hung     bool   `json:"hung,omitempty"`
 }
@@ -77,6 +78,7 @@ func h3Exchange(srv *wire.H3Server, sc *wire.H3Script, sent []byte, expect int, 
 			}
 			if resp != nil {
 				data = resp.Bytes()
+				o.Reread = reread(resp, data)
 			}
 		} else {
 			resp, err := c.R().DisableAutoReadResponse().Get(base + "/1")
@@ -446,6 +448,7 @@ func runH3(r *hk.Run, rng *hk.Rand) {
 			"stream_bytes_behind_headers": len(g.wire), "frames": len(g.actions), "mode": o.Mode, "stream_head": fmt.Sprintf("%x", trunc(g.wire, 48)),
 			"coding": g.coding, "plain_len": len(g.plain), "interim_blocks": g.interim}
 		success := o.CallErr == "" && o.ReadErr == ""
+		rereadOracle(r, "h3", sig, success, o.DLen, o.Reread, in, o)
 		headers := !g.noHeaders && g.hdrCut == 0
 		consistent := headers && g.complete && (g.cl < 0 || g.cl == len(g.sent))
 		// the honest limit: without a declared length the FIN is the only end marker, so a FIN
